@@ -996,20 +996,31 @@ class Client():
     def redirect(self):
         """
         Perform redirect
+        Returns True if redirected. Returns False if not because the redirect
+        location is missing, invalid or refused (https to http).
         """
         if self.redirects:
             redirect = self.redirects[-1]
             location = redirect['headers'].get('location')
+            if not location:  # nowhere to redirect to
+                return False
             path, sep, query = location.partition('?')
             path = unquote(path)
             if sep:
                 location = sep.join([path, query])
             else:
                 location = path
-            splits = urlsplit(location)
-            hostname = splits.hostname
-            port = splits.port
+            try:
+                splits = urlsplit(location)
+                hostname = splits.hostname
+                port = splits.port
+            except ValueError as ex:  # invalid port or IPv6 in location
+                return False
             scheme = splits.scheme
+            if not hostname:  # relative location so same scheme host and port
+                hostname = self.requester.hostname
+                port = self.requester.port
+                scheme = self.requester.scheme
             scheme = 'https' if scheme.lower() == 'https' else 'http'
             if scheme == 'https':
                 secured = True  # use tls socket connection
@@ -1028,8 +1039,7 @@ class Client():
             ha = (host, port)
             if ha != self.connector.ha or scheme != self.requester.scheme:
                 if self.requester.scheme == 'https' and scheme != 'https':
-                    raise  ValueError("Attempt to redirect to non secure "
-                                      "host '{0}'".format(location))
+                    return False  # refuse to redirect to non secure host
                 self.connector.close()
                 if secured:
                     context = getattr(self.connector, 'context') if hasattr(self.connector, 'context') else None
@@ -1061,6 +1071,8 @@ class Client():
             self.respondent.redirectant = False
             self.respondent.redirected = True
             self.respondent.ended = False  # since redirecting not done
+            return True
+        return False
 
     def serviceRequests(self):
         """
@@ -1131,10 +1143,16 @@ class Client():
                                       ('errored', self.respondent.errored),
                                       ('error', self.respondent.error),
                                      ])
+                    redirected = False
                     if self.respondent.redirectable and self.respondent.redirectant:
                         self.redirects.append(copy.copy(response))
-                        self.redirect()
-                    else:
+                        redirected = self.redirect()
+                        if not redirected:  # location missing invalid or refused so give up
+                            self.redirects.pop()
+                            self.respondent.redirectant = False
+                            response['errored'] = True
+                            response['error'] = "Invalid or refused redirect location"
+                    if not redirected:
                         if self.redirects:
                             response['redirects'] = copy.copy(self.redirects)
                         self.redirects = []
